@@ -80,55 +80,8 @@ func c22(c *core.Ctx) {
 	{
 		// calls that establish the verification: VerifySessionSignature itself, or a private helper every nil-error
 		// return of which lies on the err==nil edge of such a call
-		verifying := map[*ssa.Function]bool{}
-		verifyCallsIn := func(g *ssa.Function) []ssa.CallInstruction {
-			var out []ssa.CallInstruction
-			for _, call := range ssax.Calls(g) {
-				if _, isGo := call.(*ssa.Go); isGo {
-					continue
-				}
-				if ssax.Callee(call) == verifySess {
-					out = append(out, call)
-				} else if h := call.Common().StaticCallee(); h != nil && verifying[h] {
-					out = append(out, call)
-				}
-			}
-			return out
-		}
-		for round := 0; round < 2; round++ {
-			for _, g := range libFns(c, "opcua") {
-				if verifying[g] || g.Parent() != nil {
-					continue
-				}
-				res := g.Signature.Results()
-				if res.Len() == 0 || res.At(res.Len()-1).Type().String() != "error" {
-					continue
-				}
-				vcs := verifyCallsIn(g)
-				if len(vcs) == 0 {
-					continue
-				}
-				all, n := true, 0
-				for _, r := range ssax.Returns(g) {
-					if !ssax.IsNil(ssax.RetVal(r, res.Len()-1)) {
-						continue
-					}
-					n++
-					okR := false
-					for _, vc := range vcs {
-						if okEdge(r, vc) {
-							okR = true
-						}
-					}
-					if !okR {
-						all = false
-					}
-				}
-				if all && n > 0 {
-					verifying[g] = true
-				}
-			}
-		}
+		verifying := verifyingHelpers(libFns(c, "opcua"), verifySess)
+		verifyCallsIn := func(g *ssa.Function) []ssa.CallInstruction { return verifyCallsIn(g, verifySess, verifying) }
 		var handler *ssa.Function
 		for _, a := range createSess.AnonFuncs {
 			if len(verifyCallsIn(a)) > 0 {
